@@ -1,7 +1,7 @@
 --------------------------- MODULE MC_LayerGroup ---------------------------
 (* Beyond the list: LayerGroup.tla's reader against a writer stated in TLA+.  *)
 (* Every small group (up to MaxLayers layers of up to MaxObjects instance     *)
-(* objects of the four record types, names of 0 / 1 / 3 bytes) is written in the  *)
+(* objects of the five record types, names of 0 / 1 / 3 bytes) is written in the  *)
 (* canonical layout - object table behind the layer header, records in table  *)
 (* order, each followed by its name, then the referenced-set list and the     *)
 (* layer name - and read back: the reader must return exactly what was        *)
@@ -19,10 +19,12 @@ Limbs(n) == <<n \div 65536, n % 65536>>
 \* an abstract object: type, id, name, nine transform words, record words
 Objects == {[type |-> TypeMarker, id |-> 7, name |-> nm, t |-> [j \in 1..9 |-> 65536 * j + j], d |-> <<2, 66000, 3>>] : nm \in Names}
            \cup {[type |-> TypePop, id |-> 70000, name |-> nm, t |-> [j \in 1..9 |-> j], d |-> <<3, 12, 2, 1065353216, 200>>] : nm \in Names}
+           \cup {[type |-> TypeBg, id |-> 13, name |-> nm, t |-> [j \in 1..9 |-> 7 * j], d |-> <<500, 70003, 2, 255, 65537, 4, 1, 0, 1, 1073741824>>] : nm \in Names}
            \cup {[type |-> TypeEnv, id |-> 9, name |-> nm, t |-> [j \in 1..9 |-> 3 * j], d |-> <<300, 70001, 2, 1, 77, 1065353216, 15, 1056964608, 3, 400>>] : nm \in Names}
            \cup {[type |-> TypeExit, id |-> 11, name |-> nm, t |-> [j \in 1..9 |-> 5 * j], d |-> <<6, 1234, 1, 1, 40000, 129, 66000, 70002, 8, 1078530011>>] : nm \in Names}
 ObjRecord(o) ==
   LET data == IF o.type = TypeMarker THEN Words(o.d)
+              ELSE IF o.type = TypeBg THEN Words(SubSeq(o.d, 1, 6)) \o <<o.d[7], o.d[8], o.d[9], 0>> \o LE32n(o.d[10])
               ELSE IF o.type = TypePop THEN Words(SubSeq(o.d, 1, 4)) \o <<o.d[5], 0, 0, 0>> \o LE32n(0)
               ELSE IF o.type = TypeEnv THEN Words(SubSeq(o.d, 1, 3)) \o <<o.d[4], o.d[5], 0, 0>> \o Words(SubSeq(o.d, 6, 10))
               ELSE LE32n(o.d[1]) \o LE16(o.d[2]) \o <<o.d[3], 0>> \o LE32n(0) \o LE32n(o.d[4]) \o LE16(o.d[5]) \o LE16(o.d[6])
@@ -73,6 +75,8 @@ ReadsBackWritten ==
             IN /\ r.type = o.type /\ r.id = Limbs(o.id) /\ r.name = o.name
                /\ r.transform = [j \in 1..9 |-> Limbs(o.t[j])]
                /\ r.data = IF o.type = TypeMarker THEN <<o.d[1], Limbs(o.d[2]), Limbs(o.d[3])>>
+                           ELSE IF o.type = TypeBg THEN <<Limbs(o.d[1]), Limbs(o.d[2]), o.d[3], Limbs(o.d[4]), Limbs(o.d[5]), Limbs(o.d[6]),
+                                                          o.d[7] # 0, o.d[8] # 0, o.d[9] # 0, Limbs(o.d[10])>>
                            ELSE IF o.type = TypePop THEN <<o.d[1], Limbs(o.d[2]), Limbs(o.d[3]), Limbs(o.d[4]), o.d[5]>>
                            ELSE IF o.type = TypeEnv THEN <<Limbs(o.d[1]), Limbs(o.d[2]), o.d[3], o.d[4] # 0, o.d[5], Limbs(o.d[6]), Limbs(o.d[7]),
                                                            Limbs(o.d[8]), Limbs(o.d[9]), Limbs(o.d[10])>>
